@@ -210,6 +210,9 @@ def check(ctx):
     fcf = repo.func("GeckoSpa._final_connect")
     ok = "self.struct.build_accessors" in ast.unparse(fcf.node) and "self._is_connected = True" in ast.unparse(fcf.node)
     ctx.ob("R7", "GeckoSpa._final_connect::completes", ok, "_final_connect does not build the accessors and mark the spa connected", fcf.loc)
+    ctx.rule("R10", "a registration is never lost to the clean-up: _cleanup_handlers, interpreted on an engine built by its own constructor with a model lock, once per lock-release point it passes, with another thread registering a handler at exactly that point - afterwards the newcomer is still registered (the next datagram reaches it) and the finished handler is gone")
+    from ..enginemodel import registration_survives_cleanup
+    registration_survives_cleanup(ctx, repo, "R10")
     ctx.rule("R9", "handshake's status-block step: the blocking structure installs a block only when the final segment arrived in sequence, and restarts the transfer otherwise (C01's obligations on GeckoStructure: install guard, append guard, fresh assembly per resend, counted resends)")
     from . import c01 as _c01
     _c01.sync_assembly(ctx.borrowed("R9", "C01"), repo)
